@@ -38,7 +38,7 @@ def base(el):
 
 
 @st.composite
-def palette_solution(draw, ph_free, min_conc=1e-5, fixed=None):
+def palette_solution(draw, ph_free, min_conc=1e-5, fixed=None, narrow=False):
     """charge-balanced solution of conservative solutes: cations and anions are drawn, the balance goes to Cl or Na.
     fixed = (cations, anions): use exactly these elements (both lists then contain Na and Cl, so that the balance does
     not introduce an element)"""
@@ -51,12 +51,12 @@ def palette_solution(draw, ph_free, min_conc=1e-5, fixed=None):
     q = 0.0
     for e in cats:
         z, hi = CATIONS[e]
-        c = draw(cg.logu(max(min_conc, hi * 1e-4), hi, 3))
+        c = draw(cg.logu(hi * 0.05, hi * 0.5, 3)) if narrow else draw(cg.logu(max(min_conc, hi * 1e-4), hi, 3))
         comps[e] = c
         q += z * c
     for e in ans:
         z, hi = ANIONS[e]
-        c = draw(cg.logu(max(min_conc, hi * 1e-4), hi, 3))
+        c = draw(cg.logu(hi * 0.05, hi * 0.5, 3)) if narrow else draw(cg.logu(max(min_conc, hi * 1e-4), hi, 3))
         comps[e] = c
         q -= z * c
     if q > 0:
@@ -141,7 +141,7 @@ def column(draw, tier="quick", fam=None):
                 l0 = case["lengths"][0] if equal else lmin
                 case["lengths"] = [l0] * n
                 case["disp"] = [float("%.3g" % (l0 * a0))] * n
-                case["disp"][end] = float("%.3g" % (l0 * draw(st.sampled_from([0.8, 1.0, 1.2, 1.5, 1.8, 2.0, 2.2, 2.5, 3.0, 4.0]))))
+                case["disp"][end] = float("%.3g" % (l0 * draw(st.sampled_from([0.8, 1.0, 1.5, 1.9, 2.05, 2.1, 2.15, 2.2, 2.3, 2.5, 3.0, 4.0]))))
             else:
                 l0 = draw(cg.logu(0.05, 1.0, 3))
                 case["lengths"] = [l0] * n
@@ -149,6 +149,8 @@ def column(draw, tier="quick", fam=None):
                 case["disp"] = [float("%.3g" % (l0 * max(a0, 0.05)))] * n
             case["end_contrast"] = end
         shifts = draw(st.integers(1, smax))
+        if "end_contrast" in case and draw(st.booleans()):
+            shifts = draw(st.integers(1, 3))      # an unstable end cell is visible before the run can break down
         _diffusion(draw, case, n, "single", quick, allow_zero=True)
         if draw(st.integers(0, 3)) == 0:
             _stagnant(draw, case, n, "single", layers_ok=True)
@@ -176,7 +178,15 @@ def column(draw, tier="quick", fam=None):
         ans = sorted(set(draw(st.lists(st.sampled_from(sorted(ANIONS)), min_size=0, max_size=2, unique=True))) | {"Cl"})
         fixed = (cats, ans)
         case.setdefault("excluded", []).append("implicit_with_element_absent_in_a_cell")
-    case["palette"] = [draw(palette_solution(ph_free, fixed=fixed)) for _ in range(npal)]
+    narrow = False
+    if "end_contrast" in case and draw(st.integers(0, 2)) > 0:
+        # an end cell with a (slightly) negative self-mixing factor drives every element that the boundary solution lacks
+        # below zero and the run stops (outside the domain); with common elements at comparable concentrations the run
+        # completes and the overshoot is visible
+        cats = sorted(set(draw(st.lists(st.sampled_from(sorted(CATIONS)), min_size=0, max_size=2, unique=True))) | {"Na"})
+        ans = sorted(set(draw(st.lists(st.sampled_from(sorted(ANIONS)), min_size=0, max_size=1, unique=True))) | {"Cl"})
+        fixed, narrow = (cats, ans), True
+    case["palette"] = [draw(palette_solution(ph_free, fixed=fixed, narrow=narrow)) for _ in range(npal)]
     # 2-4 distinct solutions spread over the cells as contiguous blocks (fronts) or interleaved
     if draw(st.booleans()) or n < 2:
         case["assign"] = [draw(st.integers(0, npal - 1)) for _ in range(n)]
